@@ -323,6 +323,11 @@ PURE_KINDS = ("Path", "Field", "MethodCall", "Call", "Macro", "Binary", "Unary",
 
 def _pure(e):
     for n in walk(e):
+        # reading a clock or a random source is not a value that can be moved to its use
+        if n["k"] == "Call" and n["func"].get("k") == "Path" and n["func"]["path"].rsplit("::", 1)[-1] in ("now", "random", "thread_rng"):
+            return False
+        if n["k"] == "MethodCall" and n["method"] in ("elapsed", "next", "pop", "take", "remove", "insert", "push", "recv", "lock"):
+            return False
         if n["k"] not in PURE_KINDS and n["k"] not in ("PIdent", "PWild", "PTupleStruct", "PStruct", "PPath", "PLit", "PRef", "PTuple", "POr"):
             return False
     return True
@@ -390,24 +395,17 @@ def _mutated_names(stmt):
     return out
 
 
-def resolve_named(conds, path):
-    """Facts are stated over the definitions of immutable simple lets, not over their names:
-    `let t = m.type_knowledge(); if t.is_local()` gives the fact `m.type_knowledge().is_local()`, and
-    `let flag = <condition>; if flag` gives the condition itself.  Only `let x = <pure expression>` (no `mut`, no
-    control flow in the initialiser) on the way to the target is resolved; a later shadowing binding of the same
-    name (pattern, loop variable) ends the substitution."""
+def pure_let_env(path):
+    """name -> definition for the immutable pure simple lets that are in scope at the end of `path` (a find_path
+    result) and whose definition is still valid there (no later shadowing binding, no possible mutation of a place
+    the definition mentions)"""
     env = {}
     env_free = {}
-    out = []
-    ci = 0
-    # walk the path again, extending the environment in source order, and rewrite each fact with the environment
-    # that was current where the fact arose: facts were appended in path order, so process them lazily at the end
     for parent, _slot, child in path:
         if parent["k"] == "Block":
             for s in parent["stmts"]:
                 if s is child:
                     break
-                # a statement that may change something a recorded definition mentions invalidates that definition
                 for nm in _mutated_names(s):
                     for k_ in [k_ for k_, fv in list(env_free.items()) if nm in fv]:
                         env.pop(k_, None)
@@ -420,14 +418,11 @@ def resolve_named(conds, path):
                     if s["pat"]["k"] == "PIdent" and s["init"] is not None and not s["pat"].get("mut") and s.get("else") is None and _pure(s["init"]):
                         env[s["pat"]["name"]] = _subst(s["init"], env)
                         env_free[s["pat"]["name"]] = {x["path"].split("::")[0] for x in walk(env[s["pat"]["name"]]) if x["k"] == "Path"}
-            # the statement on the path itself (loop / if / match containing the target) may mutate too: its effects
-            # before the target are not ordered here, so be conservative
             for nm in _mutated_names(child) if isinstance(child, dict) and child.get("k") in ("For", "While", "Loop") else ():
                 for k_ in [k_ for k_, fv in list(env_free.items()) if nm in fv]:
                     env.pop(k_, None)
                     env_free.pop(k_, None)
         elif parent["k"] in ("For", "Closure", "Arm", "Match", "If", "While"):
-            # names bound by patterns on the way shadow earlier lets
             pats = []
             if parent["k"] == "For":
                 pats = [parent["pat"]]
@@ -443,6 +438,16 @@ def resolve_named(conds, path):
                 for x in walk(p_):
                     if x["k"] == "PIdent":
                         env.pop(x["name"], None)
+                        env_free.pop(x["name"], None)
+    return env
+
+
+def resolve_named(conds, path):
+    """Facts are stated over the definitions of immutable simple lets, not over their names:
+    `let t = m.type_knowledge(); if t.is_local()` gives the fact `m.type_knowledge().is_local()`, and
+    `let flag = <condition>; if flag` gives the condition itself (see pure_let_env for which lets qualify)."""
+    env = pure_let_env(path)
+    out = []
     if not env:
         return conds
 
